@@ -247,7 +247,9 @@ def do_decimal(m, rng, spec, conv, n):
     if q is not None:
         vals += [q, -q, D(0).quantize(q), (D(10) ** 12).quantize(q), (q * 999).quantize(q)]
     else:
-        vals += [D("0"), D("-0.0"), D("1.50"), D("100"), D("0.000001"), D("123456789012.123456")]
+        vals += [D("0"), D("-0.0"), D("1.50"), D("100"), D("0.000001"), D("123456789012.123456"),
+                 # more significant digits than the default arithmetic context carries (28): reading must not round
+                 D("1234567890123456789012345678901.25"), D("-0.1234567890123456789012345678901234"), D("99999999999999999999999999999999999")]
     for v in vals:
         m.ctx.distinct((spec, str(v)))
         t = m.inverse(conv, spec, v)
@@ -272,6 +274,9 @@ def do_decimal(m, rng, spec, conv, n):
             want = exact.quantize(q) if q is not None else exact
             m.ctx.distinct((spec, t))
             m.canonical(conv, spec, t, want=want, key_hint=("decimal/scale0-quantum" if scale == 0 else None))
+    for t, want in (("-0.00", D("-0.00")), ("1234567890123456789012345678901234.5", D("1234567890123456789012345678901234.5")), ("-0", D("-0"))):
+        if q is None:
+            m.canonical(conv, spec, t, want=want)
     if q is not None:
         # one quantum / half a quantum
         half = (q / 2)
